@@ -26,7 +26,33 @@ pub fn make_case(seed: u64, i: u64) -> Case {
   // make the first build require everything so that later bottom-up builds have many affected tasks
   let all: Vec<u32> = (0..prog.n_tasks() as u32).collect();
   steps.insert(0, Step::TopDown(all));
+  // one history in four contains builds that abort (a panic at the k-th task operation of a later build)
+  if rng.chance(1, 4) { crashy(&mut rng, &mut steps); }
   Case { prog, init, steps }
+}
+
+/// Inserts crash points in front of some builds after the first one (bottom-up builds preferred: an update that is
+/// aborted with tasks still scheduled).
+fn crashy(rng: &mut Rng, steps: &mut Vec<Step>) {
+  let mut k = 1;
+  while k < steps.len() {
+    let hit = match &steps[k] { Step::BottomUp(_) => rng.chance(2, 3), Step::TopDown(_) => rng.chance(1, 4), _ => false };
+    if hit { steps.insert(k, Step::PanicAt(rng.range(1, 6) as u64)); k += 1; }
+    k += 1;
+  }
+}
+
+/// An unrelated history whose bottom-up builds abort: run between two replays, on the same thread.
+pub fn noisy_neighbour(seed: u64, i: u64) -> Case {
+  let mut c = make_case(seed ^ 0x4E01_5E, i);
+  let mut rng = Rng::derive(seed ^ 0x4E01_5E ^ 1, i);
+  c.steps.retain(|s| !matches!(s, Step::PanicAt(_)));
+  let mut k = 1;
+  while k < c.steps.len() {
+    if matches!(&c.steps[k], Step::BottomUp(_)) { c.steps.insert(k, Step::PanicAt(rng.range(1, 4) as u64)); k += 1; }
+    k += 1;
+  }
+  c
 }
 
 /// Runs the case and returns (digest of everything, per-session digests, number of events, max tasks scheduled).
@@ -43,10 +69,11 @@ pub fn digest_case(case: &Case, keep_events: bool) -> (u64, Vec<u64>, usize, Vec
     let rec = match st {
       Step::Set(r, v) => { d.set(*r, *v); continue; }
       Step::Arm(o, r, on) => { d.arm(*o, *r, *on); continue; }
-      Step::PanicAt(_) | Step::PanicAtAny(_) => continue,
+      Step::PanicAt(k) | Step::PanicAtAny(k) => { crate::cell::FAULTS.with(|f| f.borrow_mut().panic_at = Some(*k)); continue; }
       Step::TopDown(roots) => d.session(None, roots),
       Step::BottomUp(roots) => { let ch: Vec<u32> = d.pending.iter().copied().collect(); let r = d.session(Some(ch), roots); d.pending.clear(); r }
     };
+    crate::cell::FAULTS.with(|f| f.borrow_mut().panic_at = None);
     let dg = log::digest(&rec.events);
     let mut h = Fnv::default();
     h.u64(dg);
@@ -101,6 +128,8 @@ pub fn run(tier: &str, seed: u64, replay: Option<u64>, child_range: Option<(u64,
       let other = make_case(seed ^ 0x5EED, i + 1);
       let _ = digest_case(&other, false);
       let _ = digest_case(&make_case(seed ^ 0x5EED5, i + 2), false);
+      // ... and one whose bottom-up builds are aborted with tasks still scheduled
+      let _ = digest_case(&noisy_neighbour(seed, i), false);
     }
     let (d2, per2, _, _) = digest_case(&case, false);
     rep.evaluations += 1;
@@ -161,7 +190,7 @@ pub fn run(tier: &str, seed: u64, replay: Option<u64>, child_range: Option<(u64,
   }
   total.add("cross_process_digests_compared", compared);
   total.add("child_processes", processes);
-  total.rule = "Cases: wide well-formed programs (>=5 tasks, up to 8 operations per task) with a first build that requires every task, then 8 builds (top-down / bottom-up) with external changes in between. The complete event log of every session (harness, task-side, checker-side, resource-side and all 23 tracker callbacks) plus outputs and final state is reduced to a digest. Each history is replayed twice in one process with unrelated Pie instances built in between, and once in each of 4 further independent replays spread over 16 child processes (fresh RandomState keys, different address space layout); all digests must be equal. distinct = case digest; non-trivial = history with more than 200 logged events.".into();
+  total.rule = "Cases: wide well-formed programs (>=5 tasks, up to 8 operations per task) with a first build that requires every task, then 8 builds (top-down / bottom-up) with external changes in between. The complete event log of every session (harness, task-side, checker-side, resource-side and all 23 tracker callbacks) plus outputs and final state is reduced to a digest. One history in four contains builds that abort (a panic at the k-th task operation). Each history is replayed twice in one process with unrelated Pie instances built in between on the same thread (one of them with bottom-up builds that abort while tasks are still scheduled), and once in each of 4 further independent replays spread over 16 child processes (fresh RandomState keys, different address space layout); all digests must be equal. distinct = case digest; non-trivial = history with more than 200 logged events.".into();
   total.floor("cross-process digests compared", compared >= (hi - lo) * 2 || replay.is_some());
   total.floor("events digested", total.get("events_digested") > 10_000 || replay.is_some());
   total
